@@ -111,6 +111,10 @@ func runC18(c *c18Case) *c18Obs {
 		case "inproc":
 			addrs[i] = lime.InProcessAddr(fmt.Sprintf("c18-%d", i))
 			bls = append(bls, lime.NewBoundListener(lime.NewInProcessTransportListener(addrs[i]), addrs[i]))
+		case "fconn-errclose":
+			// a listener whose Close works but reports an error (the stock WebSocket listener does, now and then)
+			fls[i] = NewFListener(nil, PipeOpts{})
+			bls = append(bls, lime.NewBoundListener(&errCloseListener{fls[i]}, FAddr))
 		default:
 			fls[i] = NewFListener(nil, PipeOpts{})
 			bls = append(bls, lime.NewBoundListener(fls[i], FAddr))
@@ -525,7 +529,7 @@ func genC18(rt *rapid.T) *c18Case {
 	c := &c18Case{}
 	nl := rapid.IntRange(1, 3).Draw(rt, "nlisteners")
 	for i := 0; i < nl; i++ {
-		c.Listeners = append(c.Listeners, rapid.SampledFrom([]string{"fconn", "fconn", "fconn-neg", "inproc"}).Draw(rt, "listener"))
+		c.Listeners = append(c.Listeners, rapid.SampledFrom([]string{"fconn", "fconn", "fconn-neg", "inproc", "fconn-errclose"}).Draw(rt, "listener"))
 	}
 	nc := rapid.IntRange(0, 12).Draw(rt, "nclients")
 	for i := 0; i < nc; i++ {
@@ -570,4 +574,11 @@ func TestC18Replay(t *testing.T) {
 		judgeC18(&c, obs, o)
 		rec.Eval(&c, o)
 	}
+}
+
+type errCloseListener struct{ *FListener }
+
+func (l *errCloseListener) Close() error {
+	_ = l.FListener.Close()
+	return errors.New("close: use of closed network connection")
 }
